@@ -161,9 +161,11 @@ def _bind_half(chk, results, key, module, tag, groupfn, envfn, hs_up, hs_dn, out
         if key in r:
             have = True
         t = r.get(key)
-        if not t or r.get("spec", {}).get("sess", {}).get("hs_tun") or r.get("spec", {}).get("redeliver_hs"):
+        if not t or r.get("spec", {}).get("sess", {}).get("hs_tun") or r.get("spec", {}).get("redeliver_hs") or \
+                r.get("spec", {}).get("nobind"):
             # (sessions that were handed tun traffic during the handshake do not start in Tunnel.tla's initial state;
-            #  Tunnel.tla has no handshake requests in the middle of a transfer)
+            #  Tunnel.tla has no handshake requests in the middle of a transfer, and no record types of different capacity
+            #  within one session: a fragment sent in answer to a foreign-type copy may be cut short by that type)
             skipped += 1
             continue
         if nbound >= BIND_CAP and i % 15:
@@ -316,7 +318,7 @@ def retype_specs(tier, seed):
         out.append({"seed": seed * 100000 + 2600 + i,
                     "sess": {"qtype": QTYPES[i % 7], "lazy": [1, 1, 0][i % 3], "fragsize": [None, 200, 100][i % 3]},
                     "relay": {}, "redeliver": red, "pkts": packets(seed + 260 + i, tier), "dur_ms": 30000,
-                    "label": "retype%d" % i})
+                    "nobind": True, "label": "retype%d" % i})
     return fit_frag(out)
 
 
